@@ -29,15 +29,25 @@ func (pool FarmPool) ExpiredHeight() (int64, error) {
 
 func (pool FarmPool) CaclRewards(farmInfo FarmInfo, deltaAmt sdkmath.Int) (rewards, rewardDebt sdk.Coins) {
 	for _, r := range pool.Rules {
+		debt := farmInfo.RewardDebt.AmountOf(r.Reward)
 		if farmInfo.Locked.GT(sdkmath.ZeroInt()) {
 			pendingRewardTotal := r.RewardPerShare.MulInt(farmInfo.Locked).TruncateInt()
-			pendingReward := pendingRewardTotal.Sub(farmInfo.RewardDebt.AmountOf(r.Reward))
-			rewards = rewards.Add(sdk.NewCoin(r.Reward, pendingReward))
+			if pendingRewardTotal.GT(debt) {
+				rewards = rewards.Add(sdk.NewCoin(r.Reward, pendingRewardTotal.Sub(debt)))
+				debt = pendingRewardTotal
+			}
 		}
 
-		locked := farmInfo.Locked.Add(deltaAmt)
-		debt := sdk.NewCoin(r.Reward, r.RewardPerShare.MulInt(locked).TruncateInt())
-		rewardDebt = rewardDebt.Add(debt)
+		// The debt of the stake that is added (removed) is rounded up (down), i.e. always
+		// against the farmer. Truncating the debt of the whole new stake instead would credit
+		// a fraction of a unit on every entry that the reward collector never received, and
+		// the last farmers of a pool could no longer unstake.
+		if deltaAmt.IsNegative() {
+			debt = debt.Sub(r.RewardPerShare.MulInt(deltaAmt.Neg()).TruncateInt())
+		} else {
+			debt = debt.Add(r.RewardPerShare.MulInt(deltaAmt).Ceil().TruncateInt())
+		}
+		rewardDebt = rewardDebt.Add(sdk.NewCoin(r.Reward, debt))
 	}
 	return rewards, rewardDebt
 }
